@@ -226,6 +226,17 @@ func patchHarnesses(thorough bool) []harness {
 		// adjacent depends on the delivery order of the result channel
 		Vulns: []u.Vuln{{ID: "V-1", Pkg: "d2", Introduced: "0", Fixed: "1.0.1"}, {ID: "V-2", Pkg: "d2", Introduced: "0", Fixed: "1.0.1"},
 			{ID: "V-3", Pkg: "d3", Introduced: "0", Fixed: "1.1.0"}}}})
+	// two attempts that both introduce the SAME new vulnerability (x@2 and y@2 both pull in z@1):
+	// each must get its own follow-up attempt whichever result arrives first
+	hs = append(hs, patchProg{Name: "maven-override-two-fixes-introduce-the-same-vuln", Case: u.Case{Eco: u.Maven,
+		Pkgs: []u.Pkg{
+			{Name: "x", Vers: vers(v("1.0.0"), v("2.0.0", u.Dep{Name: "z", Req: "1.0.0"}))},
+			{Name: "y", Vers: vers(v("1.0.0"), v("2.0.0", u.Dep{Name: "z", Req: "1.0.0"}))},
+			{Name: "z", Vers: vers(v("1.0.0"), v("1.1.0"))},
+		},
+		Manifest: []u.Req{{Name: "x", Req: "1.0.0"}, {Name: "y", Req: "1.0.0"}},
+		Vulns: []u.Vuln{{ID: "V-A", Pkg: "x", Introduced: "0", Fixed: "2.0.0"}, {ID: "V-B", Pkg: "y", Introduced: "0", Fixed: "2.0.0"},
+			{ID: "V-N", Pkg: "z", Introduced: "0", Fixed: "1.1.0"}}}})
 	// npm / relax (introduced vulnerabilities are retried one by one)
 	npmPkgs := []u.Pkg{
 		{Name: "d1", Vers: vers(v("1.0.0"), v("1.0.1"), v("2.0.0"))},
